@@ -33,6 +33,8 @@ def main():
     for j, (a, b) in enumerate(_c02.POS_ONLY):
         src = "package p\n\nfunc h() {\n\t_ = same(%s, %s)\n\t_ = same(%s, %s)\n\t_ = same(%s, %s)\n\t_ = same(%s, %s)\n}\n" % (a, b, b, a, a, a, b, b)
         pairs.append(("p.patch", b"@@\nvar x expression\n@@\n-same(x, x)\n+one(x)\n", "a.go", src.encode())); names.append("pos-only#%d" % j); metas.append({"family": "pos-only"})
+    for nm, p, f, meta in enginegen.extra_pairs():
+        pairs.append(("p.patch", p, "a.go", f)); names.append(nm); metas.append(meta)
     res = enginecorr.run(pairs)
     for name, pair, o, meta in zip(names, pairs, res, metas):
         ck.count((pair[1], pair[3]), nontrivial=not o["skipped"])
